@@ -135,7 +135,8 @@ def prof_counts(node):
 
 def structure(ds, depth=0):
     """Identity snapshot of a pipeline: every stage, its attributes and the identity of their values."""
-    out = [(id(ds), type(ds).__name__, tuple(sorted((k, id(v)) for k, v in vars(ds).items() if k != '_keys')))]
+    # public attributes and the inputs only: privately, lazily filled caches are not part of "the pipeline object"
+    out = [(id(ds), type(ds).__name__, tuple(sorted((k, id(v)) for k, v in vars(ds).items() if not k.startswith('_'))))]
     for x in getattr(ds, 'input_datasets', ()):
         out += structure(x, depth + 1)
     if hasattr(ds, 'input_dataset'):
@@ -159,8 +160,9 @@ def drive(ds, scenario, n):
             return out, 'StopIteration'
         except BaseException as e:      # noqa: BLE001
             return out, O.exc_name(e)
-        if hasattr(it, 'close'):
-            it.close()
+        finally:
+            if hasattr(it, 'close'):
+                it.close()
         return out, None
     if kind == 'index':
         return O.get_index(ds, scenario[1])[:2]
@@ -183,11 +185,15 @@ def check_state(ds, ref, program, st, report):
     if ref.items_mode == 'yes':
         scenarios.append(('items',))
     top = program['ops'][-1][0] if program['ops'] else program['source'][0]
-    before = structure(ds)
     try:
         ln_s = O.impl_len(ds)
+        before = structure(ds)
         P0 = ProfilingDataset(ds)
         ln_p = O.impl_len(P0)
+        O.run_iter(lambda: iter(P0), n + 3)
+        if structure(ds) != before:
+            report(f'wrapped-pipeline-modified/{top}', 'wrapping and iterating the profiled pipeline changed public attributes '
+                                                       '/ input identities of the wrapped pipeline')
     except BaseException as e:      # noqa: BLE001
         report(f'wrapping-raises/{top}/{type(e).__name__}', f'ProfilingDataset(s) raised {e}')
         return
@@ -218,8 +224,6 @@ def check_state(ds, ref, program, st, report):
         if pc != tc:
             which = 'failed-hits' if [c[0] for c in pc] == [c[0] for c in tc] else 'hits'
             report(f'wrong-{which}/{sc[0]}/{top}', f'scenario {sc}: per-stage (hits, failed) {pc}; independent taps count {tc}')
-    if structure(ds) != before:
-        report(f'wrapped-pipeline-modified/{top}', 'vars() / input identities of the wrapped pipeline changed')
 
 
 def _task(args):
